@@ -51,7 +51,9 @@ def to_coq(c):
     for i, t in enumerate(th):
         if t["kind"] == "q":
             threads.append("mkT KQ %d" % len(qs))
-            qs.append("mkQS %d %d" % (t.get("client", 0), c["keys"][i]))
+            sh = c["shapes"][i]
+            qs.append("mkQS %d %d %s %s" % (t.get("client", 0), c["keys"][i],
+                                            cbool(sh.get("ans_cached", False)), cbool(sh.get("extra_cached", False))))
             if c["keys"][i] not in seen:
                 seen.add(c["keys"][i])
                 s = c["shapes"][i]
